@@ -133,6 +133,36 @@ def stale_rule(chk, prog, fnames, movers, derive_calls=(), rule="STALE"):
     return total
 
 
+def preserve_rule(chk, prog, roles, buffer_writers, rule="PRESERVE"):
+    lib = prog.lib_functions()
+    n = 0
+    for fn in buffer_writers:
+        f = lib[fn]
+        inst = prog.params(f)[0]["name"]
+        posp = [p["name"] for p in prog.params(f)[1:] if qtype(p) in ("int", "unsigned int", "size_t", "unsigned int *")]
+        calls = [c for c in walk(prog.body(f)) if c.get("kind") == "CallExpr"]
+        if any(callee_name(c) == "mremap" for c in calls):
+            n += 1
+            chk.ok(rule, "%s/%s" % (rule, fn), loc_str(f), "%s grows the buffer with mremap, which keeps the old contents" % fn)
+            continue
+        copies = [c for c in calls if callee_name(c) in ("memcpy", "memmove")]
+        ok = False
+        why = "no mremap and no copy of the old contents"
+        for c in copies:
+            a = call_args(c)
+            src = expr_str(strip(a[1], casts=True))
+            ln = expr_str(strip(a[2], casts=True))
+            if src == inst + "->buffer":
+                if ln == inst + "->buffer_len" or ln in posp or ln in ["*" + p for p in posp]:
+                    ok = True
+                else:
+                    why = "copies %s bytes: neither the old length nor the current position (a field that is only updated when the call returns is stale here)" % ln
+        n += 1
+        chk.require(ok, rule, "%s/%s" % (rule, fn), loc_str(copies[0]) if copies else loc_str(f),
+                    "%s keeps every byte written so far when it replaces the buffer" % fn, why)
+    return n
+
+
 def run(chk, prog, tier):
     roles = PL.Roles(prog)
     chk.analysed["roles"] = roles.describe()
@@ -211,6 +241,9 @@ def run(chk, prog, tier):
                     buf_ok = True
             chk.require(len_ok, "GROW", "GROW/len-update/%s" % fn, loc_str(c), "after a successful growth buffer_len equals the length given to mremap", "no matching update")
             chk.require(buf_ok, "GROW", "GROW/buf-update/%s" % fn, loc_str(c), "after a successful growth <instance>->buffer is refreshed", "no assignment")
+    # PRESERVE: whatever replaces the buffer keeps every byte written so far - mremap does; a fresh mapping must be filled by a
+    # copy of the whole old mapping (buffer_len bytes) or of at least the current position handed to the routine
+    preserve_rule(chk, prog, roles, buffer_writers)
     # ORDER / CHK / ATOMIC for the growth routine
     from checks import C17
     from valib import err as ERR
